@@ -14,20 +14,63 @@ open PatchModel PatchModel.Script
 def NoReversedD2 (file : List Line) (hs : List Hunk) : Prop :=
   ∀ h ∈ hs, ¬ (h.new.count = 0 ∧ h.new.start = 0 ∧ splice file 0 hs ≠ [])
 
-/-- the inherently ambiguous case is excluded: the first hunk does not apply exactly at its stated line of `B`
+/-- the inherently ambiguous cases are excluded: the first hunk does not apply exactly at its stated line of `B`
     (in particular it is not a context-free insertion, which "fits" anywhere). Either the hunk has an old side
-    that is not admissible at the stated line, or it is the hunk of a file-creating patch (`@@ -0,0 +1,n @@`)
-    and the file now exists and is not empty -/
+    that is not admissible at the stated line — and, if it has NO new side (a removal without context: `h1.new.count = 0`), is not
+    found anywhere else in reach either —, or it is the hunk of a file-creating patch (`@@ -0,0 +1,n @@`) and the file now exists
+    and is not empty.
+
+    The third conjunct is new with fix 3f5edfc (mirrored in `applyPatch`: `suspicious := (hr.old.count != 0 && isPerfect rloc) || …`).
+    The reversal of a context-free removal is an insertion without old lines, which `locate_hunk` "finds" wherever it says without
+    comparing a line: that is no evidence of an applied patch any more (counting it was defect D82).  What is left as evidence for
+    such a hunk is "the hunk itself is not found at all"; when the removed text occurs again in reach, the hunk is found there and
+    applied a second time — known finding D84, inherent (`C06_old_statement_false` below).  In the file-creating case the hunk is
+    never found (`creation_not_found`), so nothing is added there.
+
+    The OLD definition (kept as `FirstHunkNoLongerFitsOld`):
+      (h1.old.count ≠ 0 ∧ admissibleB B h1 o.ignoreWhitespace o.maxFuzz h1.pos0.toNat 0 = false) ∨
+      (h1.old.count = 0 ∧ h1.old.start = 0 ∧ B ≠ []) -/
 def FirstHunkNoLongerFits (B : List Line) (h1 : Hunk) (o : ApplyOpts) : Prop :=
+  (h1.old.count ≠ 0 ∧ admissibleB B h1 o.ignoreWhitespace o.maxFuzz h1.pos0.toNat 0 = false ∧
+    (h1.new.count ≠ 0 ∨ locateHunk B h1 o.ignoreWhitespace 0 o.maxFuzz 0 = none)) ∨
+  (h1.old.count = 0 ∧ h1.old.start = 0 ∧ B ≠ [])
+
+/-- the definition before fix 3f5edfc; with it `C06_N` / `C06_t` are false of the present model (`C06_old_statement_false`) -/
+def FirstHunkNoLongerFitsOld (B : List Line) (h1 : Hunk) (o : ApplyOpts) : Prop :=
   (h1.old.count ≠ 0 ∧ admissibleB B h1 o.ignoreWhitespace o.maxFuzz h1.pos0.toNat 0 = false) ∨
   (h1.old.count = 0 ∧ h1.old.start = 0 ∧ B ≠ [])
 
+/-- the new definition is the old one and the third conjunct; for a first hunk with a new side they are the same -/
+theorem firstHunkNoLongerFits_iff (B : List Line) (h1 : Hunk) (o : ApplyOpts) :
+    FirstHunkNoLongerFits B h1 o ↔
+      FirstHunkNoLongerFitsOld B h1 o ∧
+        (h1.old.count ≠ 0 → h1.new.count ≠ 0 ∨ locateHunk B h1 o.ignoreWhitespace 0 o.maxFuzz 0 = none) := by
+  unfold FirstHunkNoLongerFits FirstHunkNoLongerFitsOld
+  constructor
+  · rintro (⟨a, b, c⟩ | ⟨a, b, c⟩)
+    · exact ⟨Or.inl ⟨a, b⟩, fun _ => c⟩
+    · exact ⟨Or.inr ⟨a, b, c⟩, fun h => absurd a h⟩
+  · rintro ⟨⟨a, b⟩ | ⟨a, b, c⟩, d⟩
+    · exact Or.inl ⟨a, b, d a⟩
+    · exact Or.inr ⟨a, b, c⟩
+
+theorem firstHunkNoLongerFits_of_old (B : List Line) (h1 : Hunk) (o : ApplyOpts) (hn : h1.new.count ≠ 0)
+    (h : FirstHunkNoLongerFitsOld B h1 o) : FirstHunkNoLongerFits B h1 o :=
+  (firstHunkNoLongerFits_iff B h1 o).2 ⟨h, fun _ => Or.inl hn⟩
+
 /-! ### helpers -/
+
+/-- the hunk of a file-creating patch is not found in a file that is not empty -/
+theorem creation_not_found (B : List Line) (h1 : Hunk) (iw : Bool) (maxFuzz : Int)
+    (hc : h1.old.count = 0) (hs : h1.old.start = 0) (hB : B ≠ []) :
+    locateHunk B h1 iw 0 maxFuzz 0 = none := by
+  unfold locateHunk
+  simp [hc, hs, hB]
 
 theorem forward_not_perfect (B : List Line) (h1 : Hunk) (o : ApplyOpts)
     (hamb : FirstHunkNoLongerFits B h1 o) (hf : o.force = false) :
     shouldCheckReversed (locateHunk B h1 o.ignoreWhitespace 0 o.maxFuzz 0) o = true := by
-  rcases hamb with hamb | ⟨hc, hs, hB⟩
+  rcases hamb with ⟨hc0, hna, _⟩ | ⟨hc, hs, hB⟩
   · unfold shouldCheckReversed
     cases hl : locateHunk B h1 o.ignoreWhitespace 0 o.maxFuzz 0 with
     | none => simp [hf]
@@ -37,17 +80,32 @@ theorem forward_not_perfect (B : List Line) (h1 : Hunk) (o : ApplyOpts)
       · next hc =>
         exfalso
         obtain ⟨p, f, e1, e2, _, hadm, e3⟩ :=
-          C02.locate_sound B h1 o.ignoreWhitespace 0 o.maxFuzz 0 l hl hamb.1
+          C02.locate_sound B h1 o.ignoreWhitespace 0 o.maxFuzz 0 l hl hc0
         have hf0 : f = 0 := by omega
         have hp : h1.pos0.toNat = p := by unfold Hunk.pos0; omega
-        rw [hf0, ← hp, hamb.2] at hadm
+        rw [hf0, ← hp, hna] at hadm
         cases hadm
       · simp [hf]
-  · have hl : locateHunk B h1 o.ignoreWhitespace 0 o.maxFuzz 0 = none := by
-      unfold locateHunk
-      simp [hc, hs, hB]
-    rw [hl]
+  · rw [creation_not_found B h1 _ _ hc hs hB]
     simp [shouldCheckReversed, hf]
+
+/-- the reversed-patch probe of `apply_patch` says "reversed" (the `suspicious` of `applyPatch`): the reversed first hunk is found
+    exactly where it says and has old lines — or the hunk itself is not found at all -/
+theorem probe_suspicious (B : List Line) (h1 : Hunk) (o : ApplyOpts) (q : Int)
+    (hamb : FirstHunkNoLongerFits B h1 o)
+    (hq : locateHunk B (reverseHunk h1) o.ignoreWhitespace 0 o.maxFuzz 0 = some ⟨q, 0, 0⟩) :
+    (((reverseHunk h1).old.count != 0 && isPerfect (locateHunk B (reverseHunk h1) o.ignoreWhitespace 0 o.maxFuzz 0)) ||
+      ((locateHunk B h1 o.ignoreWhitespace 0 o.maxFuzz 0).isNone &&
+        (locateHunk B (reverseHunk h1) o.ignoreWhitespace 0 o.maxFuzz 0).isSome)) = true := by
+  have hperf : isPerfect (some (⟨q, 0, 0⟩ : Location)) = true := by simp [isPerfect]
+  rw [hq, hperf]
+  rcases hamb with ⟨_, _, hn | hl⟩ | ⟨hc, hs, hB⟩
+  · have : ((reverseHunk h1).old.count != 0) = true := by
+      have e : (reverseHunk h1).old.count = h1.new.count := rfl
+      rw [e]; simpa using hn
+    rw [this]; rfl
+  · rw [hl]; simp
+  · rw [creation_not_found B h1 _ _ hc hs hB]; simp
 
 theorem reversed_perfect (file : List Line) (h1 : Hunk) (rest : List Hunk) (o : ApplyOpts)
     (hv : Valid file 0 0 (h1 :: rest)) (hx : NoReversedD2 file (h1 :: rest)) (hF : 0 ≤ o.maxFuzz) :
@@ -99,11 +157,12 @@ theorem C06_N (file : List Line) (h1 : Hunk) (rest : List Hunk) (p0 : Patch) (o 
       Msg.reversedDetected false ∈ r.msgs ∧ Msg.skippingPatch ∈ r.msgs ∧ r.tty = tty := by
   obtain ⟨_, _, q, hq⟩ := reversed_perfect file h1 rest o hv hx hF
   have hsc := forward_not_perfect _ h1 o hamb hf
+  have hsus := probe_suspicious _ h1 o q hamb hq
   have hwf := valid_allWF hv
   generalize splice file 0 (h1 :: rest) = B at *
   unfold applyPatch
-  simp only [hR, Bool.false_eq_true, if_false, hp, hsc, if_true, hq, isPerfect, beq_self_eq_true, Bool.and_self,
-    Bool.true_or, checkHowToHandleReversed, hN, Bool.not_true]
+  simp only [hR, Bool.false_eq_true, if_false, hp, hsc, if_true, hsus]
+  simp only [checkHowToHandleReversed, hN, Bool.not_true, Bool.false_eq_true, if_false]
   obtain ⟨s3, e, a1, a2, a3, a4, a5, a6, a7⟩ := applyRest_skip B o p0 (h1 :: rest)
     ({ skip := true, msgs := [Msg.reversedDetected false, Msg.skippingPatch], tty := tty } : AState) 0 rfl hwf
   have hfold := C01.first_then_rest B o p0
@@ -131,10 +190,11 @@ theorem C06_t (file : List Line) (h1 : Hunk) (rest : List Hunk) (p0 : Patch) (o 
       r.patch = reversePatch p0 := by
   obtain ⟨hv', hs', q, hq⟩ := reversed_perfect file h1 rest o hv hx hF
   have hsc := forward_not_perfect _ h1 o hamb hf
+  have hsus := probe_suspicious _ h1 o q hamb hq
   generalize splice file 0 (h1 :: rest) = B at *
   unfold applyPatch
-  simp only [hR, Bool.false_eq_true, if_false, hp, hsc, if_true, hq, isPerfect, beq_self_eq_true, Bool.and_self,
-    Bool.true_or, checkHowToHandleReversed, hN, ht, Bool.not_false]
+  simp only [hR, Bool.false_eq_true, if_false, hp, hsc, if_true, hsus]
+  simp only [hq, checkHowToHandleReversed, hN, ht, Bool.not_false, if_true]
   obtain ⟨s3, e, b1, b2, _, _, b5, _, _, b8, b9⟩ :=
     C01.applyRest_valid B o (reversePatch p0) hD hF 0 0 _ hv'
       ({ msgs := [Msg.reversedDetected false, Msg.assumingR], tty := tty } : AState) 0 rfl rfl rfl
@@ -235,4 +295,132 @@ theorem C06_f (file : List Line) (p0 : Patch) (o : ApplyOpts) (tty : Option (Lis
     | error e => rfl
     | ok s => rfl
 
+/-! ### the statements with the OLD hypothesis are false of the present model: known finding D84
+
+`orig` = `a `, `}`, `a `, `}`, `{`, `foo`, `foo`, `c`; the patch `@@ -7 +6,0 @@` / `-foo` removes the second `foo` (line 7) and
+gives `again` = `a `, `}`, `a `, `}`, `{`, `foo`, `c`.  Run on `again` once more: line 7 is `c`, the hunk does not fit where it
+says (`FirstHunkNoLongerFitsOld` holds) — but one line up there is the other `foo`: `locate_hunk` finds the hunk at line 6
+(offset -1).  The reversed hunk (`+foo`, no old lines) is "found" wherever it says; since fix 3f5edfc that is no evidence, so the
+probe does not say "reversed" and the hunk is applied a second time, `-N` or `-t` or neither.  Nothing in a hunk without context
+and without additions tells "already applied" from "the lines have moved" (D82, the defect fixed, was the other side of this);
+GNU patch behaves the same.  The new `FirstHunkNoLongerFits` excludes exactly this (`D84.not_fits`). -/
+namespace D84
+def a_ : Line := ⟨[97, 32], .lf⟩
+def rb : Line := ⟨[125], .lf⟩
+def lb : Line := ⟨[123], .lf⟩
+def foo : Line := ⟨[102, 111, 111], .lf⟩
+def c : Line := ⟨[99], .lf⟩
+def orig : List Line := [a_, rb, a_, rb, lb, foo, foo, c]
+def again : List Line := [a_, rb, a_, rb, lb, foo, c]
+def once : List Line := [a_, rb, a_, rb, lb, c]
+/-- `@@ -7 +6,0 @@` / `-foo` -/
+def hk : Hunk := ⟨⟨7, 1⟩, ⟨6, 0⟩, [⟨MINUS, foo⟩]⟩
+def pt : Patch := { hunks := [hk] }
+def oN : ApplyOpts := { ignoreReversed := true }      -- -N
+def ot : ApplyOpts := { batch := true }               -- -t
+
+theorem valid : Valid orig 0 0 [hk] :=
+  Valid.cons 0 0 hk [] 6 (by unfold Hunk.WF; decide) (by decide) (by decide) (by decide) (by decide) (by decide)
+    (by decide) (Valid.nil _ _ (by decide))
+theorem spliced : splice orig 0 [hk] = again := by decide
+theorem noD2 : NoReversedD2 orig [hk] := by
+  intro h hh; simp only [List.mem_singleton] at hh; subst hh; decide
+
+/-- the old hypothesis holds (whatever the options that do not touch `-l` / `-F`): line 7 of `again` is `c`, not `foo` -/
+theorem fits_old (o : ApplyOpts) (hw : o.ignoreWhitespace = false) (hfz : o.maxFuzz = 2) :
+    FirstHunkNoLongerFitsOld again hk o := by
+  refine Or.inl ⟨by decide, ?_⟩
+  rw [hw, hfz]
+  decide +kernel
+
+/-- … the new one does not: the hunk has no new side, and it is found (at line 6, offset -1) -/
+theorem found : locateHunk again hk false 0 2 0 = some ⟨5, 0, -1⟩ := by decide +kernel
+theorem not_fits (o : ApplyOpts) (hw : o.ignoreWhitespace = false) (hfz : o.maxFuzz = 2) :
+    ¬ FirstHunkNoLongerFits again hk o := by
+  rintro (⟨_, _, h | h⟩ | ⟨h, _⟩)
+  · exact h rfl
+  · rw [hw, hfz, found] at h; cases h
+  · revert h; decide
+
+/-- what `apply_patch` does with `-N`: nothing skipped, nothing rejected, the other `foo` is gone -/
+theorem runs_N : (applyPatch again pt oN none).toOption.map (fun r => (r.skipped, r.failed, r.applied, r.out.map Out.line)) =
+    some (false, 0, [(0, ⟨5, 0, -1⟩)], once) := by decide +kernel
+/-- … and with `-t`: the same, the patch is not reversed -/
+theorem runs_t : (applyPatch again pt ot none).toOption.map (fun r => (r.skipped, r.failed, r.applied, r.out.map Out.line)) =
+    some (false, 0, [(0, ⟨5, 0, -1⟩)], once) := by decide +kernel
+
+#guard (applyPatch again pt oN none).toOption.map (·.msgs) == some [.hunk 1 "succeeded" 6 0 (-1)]
+#guard (applyPatch again pt ot none).toOption.map (·.msgs) == some [.hunk 1 "succeeded" 6 0 (-1)]
+#guard (applyPatch again pt {} none).toOption.map (fun r => (r.msgs, r.out.map Out.line)) ==
+  some ([.hunk 1 "succeeded" 6 0 (-1)], once)
+-- a patch whose context-free removal is NOT found again is still recognised (the second disjunct of `suspicious`): `again` without
+-- its `foo`
+#guard (applyPatch once pt oN none).toOption.map (fun r => (r.skipped, r.failed, r.msgs)) ==
+  some (true, 1, [.reversedDetected false, .skippingPatch])
+
+end D84
+
+/-- the statement of `C06_N` as it was before fix 3f5edfc: hypothesis `FirstHunkNoLongerFitsOld` -/
+def C06_N_old_statement : Prop :=
+  ∀ (file : List Line) (h1 : Hunk) (rest : List Hunk) (p0 : Patch) (o : ApplyOpts) (tty : Option (List Bool)),
+    Valid file 0 0 (h1 :: rest) → NoReversedD2 file (h1 :: rest) → p0.hunks = h1 :: rest →
+    FirstHunkNoLongerFitsOld (splice file 0 (h1 :: rest)) h1 o →
+    o.ignoreReversed = true → o.force = false → o.reverse = false → o.define = [] → 0 ≤ o.maxFuzz →
+    ∃ r, applyPatch (splice file 0 (h1 :: rest)) p0 o tty = .ok r ∧
+      r.out.map Out.line = splice file 0 (h1 :: rest) ∧
+      r.skipped = true ∧ r.applied = [] ∧ r.failed = (h1 :: rest).length ∧
+      r.rejected.map (·.1) = List.range (h1 :: rest).length ∧
+      Msg.reversedDetected false ∈ r.msgs ∧ Msg.skippingPatch ∈ r.msgs ∧ r.tty = tty
+
+/-- the statement of `C06_t` as it was before fix 3f5edfc -/
+def C06_t_old_statement : Prop :=
+  ∀ (file : List Line) (h1 : Hunk) (rest : List Hunk) (p0 : Patch) (o : ApplyOpts) (tty : Option (List Bool)),
+    Valid file 0 0 (h1 :: rest) → NoReversedD2 file (h1 :: rest) → p0.hunks = h1 :: rest →
+    FirstHunkNoLongerFitsOld (splice file 0 (h1 :: rest)) h1 o →
+    o.ignoreReversed = false → o.batch = true → o.force = false → o.reverse = false → o.define = [] → 0 ≤ o.maxFuzz →
+    ∃ r, applyPatch (splice file 0 (h1 :: rest)) p0 o tty = .ok r ∧
+      r.out.map Out.line = file ∧ r.rejected = [] ∧ r.skipped = false ∧
+      Msg.reversedDetected false ∈ r.msgs ∧ Msg.assumingR ∈ r.msgs ∧ r.tty = tty ∧
+      r.patch = reversePatch p0
+
+/-- **the old statement of `C06_N` is false of the model with fix 3f5edfc** (D84): with `-N` the run on `D84.again` skips nothing -/
+theorem C06_old_statement_false : ¬ C06_N_old_statement := by
+  intro H
+  obtain ⟨r, hr, _, hsk, _⟩ := H D84.orig D84.hk [] D84.pt D84.oN none D84.valid D84.noD2 rfl
+    (by rw [D84.spliced]; exact D84.fits_old _ rfl rfl) rfl rfl rfl rfl (by decide)
+  have h := D84.runs_N
+  rw [D84.spliced] at hr
+  rw [hr] at h
+  simp only [Except.toOption, Option.map_some, Option.some.injEq, Prod.mk.injEq] at h
+  rw [hsk] at h
+  exact absurd h.1 (by decide)
+
+/-- **… and so is the old statement of `C06_t`**: with `-t` the patch is not reversed, the old file does not come back -/
+theorem C06_t_old_statement_false : ¬ C06_t_old_statement := by
+  intro H
+  obtain ⟨r, hr, hout, _⟩ := H D84.orig D84.hk [] D84.pt D84.ot none D84.valid D84.noD2 rfl
+    (by rw [D84.spliced]; exact D84.fits_old _ rfl rfl) rfl rfl rfl rfl rfl (by decide)
+  have h := D84.runs_t
+  rw [D84.spliced] at hr
+  rw [hr] at h
+  simp only [Except.toOption, Option.map_some, Option.some.injEq, Prod.mk.injEq] at h
+  rw [hout] at h
+  exact absurd h.2.2.2 (by decide)
+
+/-- the new hypothesis is what the old one lacked, on this instance: `C06_N` / `C06_t` do not apply to D84 -/
+example : FirstHunkNoLongerFitsOld D84.again D84.hk D84.oN ∧ ¬ FirstHunkNoLongerFits D84.again D84.hk D84.oN :=
+  ⟨D84.fits_old _ rfl rfl, D84.not_fits _ rfl rfl⟩
+
 end PatchModel.C06
+
+#print axioms PatchModel.C06.firstHunkNoLongerFits_iff
+#print axioms PatchModel.C06.forward_not_perfect
+#print axioms PatchModel.C06.reversed_perfect
+#print axioms PatchModel.C06.probe_suspicious
+#print axioms PatchModel.C06.C06_N
+#print axioms PatchModel.C06.C06_t
+#print axioms PatchModel.C06.C06_t_creation
+#print axioms PatchModel.C06.C06_f
+#print axioms PatchModel.C06.D84.not_fits
+#print axioms PatchModel.C06.C06_old_statement_false
+#print axioms PatchModel.C06.C06_t_old_statement_false
